@@ -16,11 +16,12 @@ CONSTANTS Part, Deep     \* which sub-universe to print; Deep = TRUE for the tho
 IdOrd(ps) == ps
 RECURSIVE Rev(_)
 Rev(s) == IF s = << >> THEN << >> ELSE Append(Rev(Tail(s)), Head(s))
-W5 == INSTANCE Wire5 WITH Ord <- IdOrd, CutAt <- -1
-W5R == INSTANCE Wire5 WITH Ord <- Rev, CutAt <- -1
+W5 == INSTANCE Wire5 WITH Ord <- IdOrd, CutAt <- -1, Extra <- << >>
+W5R == INSTANCE Wire5 WITH Ord <- Rev, CutAt <- -1, Extra <- << >>
 \* property sections cut after k bytes, in both property orders
-W5C(k) == INSTANCE Wire5 WITH Ord <- IdOrd, CutAt <- k
-W5RC(k) == INSTANCE Wire5 WITH Ord <- Rev, CutAt <- k
+W5C(k) == INSTANCE Wire5 WITH Ord <- IdOrd, CutAt <- k, Extra <- << >>
+W5RC(k) == INSTANCE Wire5 WITH Ord <- Rev, CutAt <- k, Extra <- << >>
+W5X(x) == INSTANCE Wire5 WITH Ord <- IdOrd, CutAt <- -1, Extra <- x
 W3 == INSTANCE Wire3
 
 S0 == << >>
@@ -146,8 +147,27 @@ LenU5(zz) ==
                [ConnBase EXCEPT !.will = <<[WillBase EXCEPT !.ct = <<L(n)>>]>>]} :
               n \in (122..127) \cup (IF Deep THEN (16378..16383) \cup (119..135) ELSE {16379, 16380, 16381})}
 
+\* one string of a packet that carries SEVERAL properties swept over a range wide enough for the property section
+\* (and the whole packet) to cross the 127/128 boundary of its length prefix, whatever the other properties add
+SweepN == IF Deep THEN (20..127) \cup (16290..16383) ELSE 40..127
+SweepU5(zz) ==
+  UNION {{[SubBase EXCEPT !.sid = 1, !.up = << <<L(n), S0>> >>],
+          [SubBase EXCEPT !.sid = 300, !.up = << <<L(n), S0>> >>],
+          [SubBase EXCEPT !.sid = 268435455, !.up = << <<L(n), S0>>, <<Sa, Sa>> >>],
+          [t |-> "UNSUBSCRIBE", id |-> 9, up |-> << <<L(n), S0>> >>, filters |-> <<Sab, Sa>>],
+          [Over(PubBase(1), DOMAIN PubAlt, PubAlt) EXCEPT !.ct = <<L(n)>>],
+          [Over(ConnBase, DOMAIN ConnAlt, ConnAlt) EXCEPT !.am = <<L(n)>>],
+          [Over(ConnBase, DOMAIN ConnAlt, ConnAlt) EXCEPT !.will = <<[WillFull EXCEPT !.ct = <<L(n)>>]>>],
+          [Over(CaBase, DOMAIN CaAlt, CaAlt) EXCEPT !.rs = <<L(n)>>],
+          [Over(DiscBase, DOMAIN DiscAlt, DiscAlt) EXCEPT !.rc = 130, !.rs = <<L(n)>>],
+          [Over(AuthBase, DOMAIN AuthAlt, AuthAlt) EXCEPT !.rc = 24, !.rs = <<L(n)>>],
+          [t |-> "PUBACK", id |-> 1, rc |-> 16, rs |-> <<L(n)>>, up |-> UP2],
+          [t |-> "PUBCOMP", id |-> 1, rc |-> 146, rs |-> <<L(n)>>, up |-> UP1],
+          [t |-> "SUBACK", id |-> 1, rs |-> <<L(n)>>, up |-> UP2, codes |-> <<0, 1>>],
+          [t |-> "UNSUBACK", id |-> 1, rs |-> <<L(n)>>, up |-> UP1, codes |-> <<0>>]} : n \in SweepN}
+
 Univ5(zz) == AckU(0) \cup PubU(0) \cup PubRL(0) \cup SubU(0) \cup UnsubU(0) \cup SubAckU(0) \cup UnsubAckU(0) \cup DiscU(0) \cup AuthU(0) \cup ConnU(0) \cup CaU(0)
-         \cup Ping5 \cup LenU5(0)
+         \cup Ping5 \cup LenU5(0) \cup SweepU5(0)
 
 \* ---------------------------------------------------------------- MQTT 3.1.1 universe
 Will3U == {<<[q |-> q, retain |-> r, topic |-> Sab, msg |-> m]>> : q \in 0..2, r \in 0..1, m \in {S0, <<1, 2>>}} \cup {<< >>}
@@ -241,9 +261,16 @@ VarVecs(ver) ==
 \* every property section of every base frame cut at every position (the frame and the section length agree)
 PropCuts == {W5C(k)!Enc(p) \o PayBytes(Pay(p)) : k \in 0..(IF Deep THEN 80 ELSE 40), p \in MutBase5}
             \cup {W5RC(k)!Enc(p) \o PayBytes(Pay(p)) : k \in 0..(IF Deep THEN 80 ELSE 40), p \in MutBase5}
+\* every property (one well-formed instance of each of the 27 identifiers) appended to every property section of
+\* every base frame, all lengths consistent: legal only where that packet type allows the property and it is not
+\* there already
+PropSample(id) == CASE id \in W5!PByte \cup W5!PU16 \cup W5!PU32 \cup W5!PVar -> 1
+                    [] id \in W5!PStr -> Sa [] id \in W5!PBin -> <<0>> [] OTHER -> <<Sa, Sa>>
+ForeignProps == {W5X(W5!EncProp(id, PropSample(id)))!Enc(p) \o PayBytes(Pay(p)) : id \in W5!PAll, p \in MutBase5}
 EmitMut(ver) ==
   /\ \A b \in VarVecs(ver) : EmitB(ver, b)
   /\ ver = 5 => \A b \in PropCuts : EmitB(5, b)
+  /\ ver = 5 => \A b \in ForeignProps : EmitB(5, b)
   /\ \A b \in MutBases(ver) : \A m \in Mut1(b) : EmitB(ver, m)
   /\ \A b1 \in MutBases(ver) : \A b2 \in MutBases(ver) : EmitB(ver, b1 \o b2)
   /\ Deep => \A b \in {x \in MutBases(ver) : Len(x) <= 40} : \A r \in RLMut(b) : \A m \in Mut1(r) : EmitB(ver, m)
@@ -324,8 +351,13 @@ Emit(dummy) ==
     [] Part = "mut5" -> EmitMut(5)
     [] Part = "mut3" -> EmitMut(3)
     [] Part = "short" -> EmitShort(0)
-    [] Part = "lim" -> \A p \in {x \in LimPk(0) \cup (IF Deep THEN LimPkDeep(0) ELSE {}) : LimOk(x)} :
-                         PrintT(<<"VEC", ToJson([ver |-> 5, p |-> p, pay |-> Pay(p), lims |-> SortSet(Limits)])>>)
+    [] Part = "lim" ->
+         /\ \A p \in {x \in LimPk(0) \cup (IF Deep THEN LimPkDeep(0) ELSE {}) : LimOk(x)} :
+               PrintT(<<"VEC", ToJson([ver |-> 5, p |-> p, pay |-> Pay(p), lims |-> SortSet(Limits)])>>)
+         \* reported size = Remaining Length = bytes written, for packets of every kind with several
+         \* properties around the boundaries of the length prefixes (limit far away, and close)
+         /\ \A p \in SweepU5(0) \cup LenU5(0) :
+               PrintT(<<"VEC", ToJson([ver |-> 5, p |-> p, pay |-> Pay(p), lims |-> <<140, 268435460>>])>>)
     [] Part = "stream" -> \A s \in Streams(0) :
                             PrintT(<<"VEC", ToJson([ver |-> s.ver, segs |-> s.segs,
                                                     marks |-> SortSet({m \in Marks(s.segs, 0) : m > 0 /\ m < TotalLen(s.segs)})])>>)
